@@ -280,7 +280,8 @@ def nondeterminism(ck):
     ck.clause("C09.9", "every output file is created afresh (mode 'w'): a repetition of the same command writes the same bytes, not one "
                        "more copy behind the previous run's (as C08.2)")
     from . import c08 as _c08
-    _c08._file_naming(ck, rule="C09.9")
+    from ..report import RuleView as _RV99
+    _c08._file_naming(_RV99(ck, {"C09.9": "C09.9"}, only_constructs=(":mode", ":name", ":source", ":template")), rule="C09.9")   # not ':stream': an additional XMAP sent to the main stream is the same bytes on every run
     ck.clause("C09.8", "worker processes write nothing to standard output (the XMAP may be written there; worker output arrives in "
                        "scheduling order)")
     n_w = 0
